@@ -1087,6 +1087,23 @@ func (x *Exec) codeAccess(fr *Frame, st *State, p Ptr, write bool, pos token.Pos
 		return
 	}
 	rk := rootKey(p.Root)
+	if el, isArr := isArrayRoot(p.Root); isArr && len(p.Path) >= 1 && p.Path[0].Field == "" {
+		// an element of a slice or array of structs: the hooks declared for the
+		// struct type apply to the element's fields
+		if _, ok := structOf(el); ok {
+			if _, k2, _, err2 := typeAtPath(el, p.Path[1:]); err2 == nil {
+				rk2 := rootKey(el)
+				for _, h := range x.P.specs.Hooks {
+					if h.Elems || h.rootKey != rk2 || h.Kind != "protected" || (p.Fresh && p.New) {
+						continue
+					}
+					if k2 == h.Key || strings.HasPrefix(k2, h.Key+".") || strings.HasPrefix(h.Key, k2+".") || len(p.Path) == 1 {
+						x.applyHook(fr, st, h, Ptr{Base: p.Base, Root: p.Root, Path: p.Path[:1]}, write, pos)
+					}
+				}
+			}
+		}
+	}
 	for _, h := range x.P.specs.Hooks {
 		if h.Elems || h.rootKey != rk {
 			continue
